@@ -657,6 +657,12 @@ class Exec:
                 from . import models
                 yield from models.slice_(self, st1, vals[0], vals[1], vals[2], vals[3])
             return
+        # typing expressions (Dict[str, Any], List[Schema] ...) denote nothing at run time
+        if isinstance(e.value, ast.Name) and st.lookup(e.value.id) is None:
+            g = self.eng.resolve_global(self, e.value.id)
+            if isinstance(g, Const) and g.kind == "typing":
+                yield st, Const("typing", "subscripted")
+                return
         for st1, vals in self.exprs(st, [e.value, e.slice]):
             if isinstance(vals, Raise):
                 yield st1, vals
